@@ -84,6 +84,8 @@ func (b *proxyIDRingBuffer) Append(proxyID int64, sourceShard history.ClusterSha
 			}
 		}
 	}
+	// Padding above may have filled the buffer; make room for the entry itself.
+	b.ensureCapacity()
 	pos := (b.head + b.size) % len(b.entries)
 	b.entries[pos] = proxyIDMapping{sourceShard: sourceShard, sourceTask: sourceTask}
 	b.size++
